@@ -50,7 +50,9 @@ CHECKS = {
             'snapshots of everything the caller handed in; one Selector and one parsed token are reused along histories of 3-7 evaluations over '
             'several documents, context items, variable maps and timezones and each answer is compared with a freshly parsed expression on a '
             'fresh context; binder templates (for/let/some/every/inline-function and HOF parameters, shadowing, re-binding after closure '
-            'creation) with and without an outer binding of the same name have outcomes known from their lexical structure.',
+            'creation, recursive activations) with and without an outer binding of the same name have outcomes known from their lexical '
+            'structure; the five entry points (select, iter_select, Selector.select, Selector.iter_select, token.get_results) are run on '
+            'fresh inputs of the same case, with implicit timezones and caller-supplied context position/size, and must agree.',
             'Trusted: the structural value description (rv/engine.describe + timezone fields); expressions depending on the current time or randomness excluded.',
             'DESIGN.md section 4 (C05)'),
     'C06': ('exploration',
@@ -166,11 +168,14 @@ CHECKS = {
     'C19': ('fault_enumeration',
             'fault enumeration with quiescent-point state monitors: simulated installed-locale sets x all collation-call histories of length <= 3; audit hook; thread trials in cold child processes',
             'For each installed-locale configuration (simulated at the locale.setlocale boundary inside elementpath, plus the real C-only '
-            'process) ALL histories of up to three collation-using evaluations over 9 call kinds are executed; after every evaluation the '
+            'process) ALL histories of up to three collation-using evaluations over 11 call kinds (incl. names setlocale refuses with '
+            'ValueError) are executed; after every evaluation the '
             'monitors assert LC_COLLATE restored, the collate lock (replaced by an owner-tracking lock that raises instead of blocking) '
             'not held, decimal context and os.environ unchanged, only ElementPathError raised, and repeated calls give the same answer. '
             'Environment functions (canary variable), 13 DOCTYPE/entity payloads through parse-xml / parse-xml-fragment (audit hook for '
-            'file/network access), an ambient corpus, and concurrent-vs-sequential Selector trials in fresh child processes complete it.',
+            'file/network access), an ambient corpus plus a generated numeric matrix (decimal context, global random state), child '
+            'interpreters under 8 settings of LC_ALL/LC_COLLATE/LANG, and concurrent-vs-sequential Selector trials (incl. locale-switching '
+            'collations, LC_COLLATE compared before/after) in fresh child processes complete it.',
             'Simulated locales (the sandbox has only C/POSIX); thread schedules are sampled (switch interval 1e-6), not enumerated: '
             'the concurrency clause is exploration-level.',
             'DESIGN.md section 4 (C19)'),
